@@ -206,6 +206,41 @@ LISmallIntW(w) ==
 LISmallInts(ws) == LALet1(ws, LAMBDA x : LAForceSeq([i \in 1..Len(x) |-> LISmallIntW(x[i])]))
 LIAllSmall(t, bound) == \A x \in {t} : \A i \in 1..Len(x) : x[i] <= bound /\ -x[i] <= bound
 
+\* ---------------------------------------------------------------- fast decoding of observed floats
+\* LinQ!QW goes through the general IEEE module (BigInt field extraction, ~ms per component).  The same value
+\* computed with native integer arithmetic on the 16-bit limbs (least significant first), with the trailing zero
+\* bits of the significand removed so that small values get small numerators / denominators.  MC_C10 checks
+\* LAQOfW = QW on a lattice of patterns (normals, subnormals, zeros, both widths).
+RECURSIVE LATz(_)
+LATz(x) == IF x % 2 = 1 THEN 0 ELSE 1 + LATz(x \div 2)                     \* trailing zero bits, x > 0
+LAFinW(w) == IF Len(w) = 2 THEN (w[2] % 32768) \div 128 # 255 ELSE (w[4] % 32768) \div 16 # 2047
+LAAllFin(ws) == \A i \in 1..Len(ws) : LAFinW(ws[i])
+LAQOfParts(neg, N, e) ==        \* (-1)^neg * N * 2^e, N a BigInt magnitude already stripped
+    IF Len(N) = 0 THEN QZero
+    ELSE IF e >= 0 THEN QMk(ZMk(neg, NShl(N, e)), <<1>>) ELSE QMk(ZMk(neg, N), NShl(<<1>>, -e))
+LAQOfW(w) ==
+    IF Len(w) = 2 THEN
+        LET hi == w[2] ex == (hi % 32768) \div 128 man == (hi % 128) * 65536 + w[1]
+            full == IF ex = 0 THEN man ELSE man + 8388608
+            e == (IF ex = 0 THEN 1 ELSE ex) - 150
+        IN IF full = 0 THEN QZero
+           ELSE LET tz == LATz(full) sh == IF e >= 0 THEN 0 ELSE IF tz < -e THEN tz ELSE -e
+                IN LAQOfParts(hi >= 32768, NFromNat(full \div (2^sh)), e + sh)
+    ELSE
+        LET l1 == w[1] l2 == w[2] l3 == w[3] hi == w[4] ex == (hi % 32768) \div 16
+            top == (hi % 16) + (IF ex = 0 THEN 0 ELSE 16)
+            e == (IF ex = 0 THEN 1 ELSE ex) - 1075
+        IN IF l1 = 0 /\ l2 = 0 /\ l3 = 0 /\ top = 0 THEN QZero
+           ELSE LET tz == IF l1 # 0 THEN LATz(l1) ELSE IF l2 # 0 THEN 16 + LATz(l2) ELSE IF l3 # 0 THEN 32 + LATz(l3) ELSE 48 + LATz(top)
+                    sh == IF e >= 0 THEN 0 ELSE IF tz < -e THEN tz ELSE -e
+                    \* base-2^15 digits of l1 + l2 2^16 + l3 2^32 + top 2^48
+                    N == NNorm(<< l1 % 32768,
+                                  (l1 \div 32768) + (l2 % 16384) * 2,
+                                  (l2 \div 16384) + (l3 % 8192) * 4,
+                                  (l3 \div 8192) + top * 8 >>)
+                IN LAQOfParts(hi >= 32768, NShr(N, sh), e + sh)
+LAQSeqOfW(ws) == LALet1(ws, LAMBDA x : LAForceSeq([i \in 1..Len(x) |-> LAQOfW(x[i])]))
+
 \* ---------------------------------------------------------------- gtx/matrix_query, three-valued
 \* "T" / "F" where the documented comparison is decided with a margin, "U" inside the guard band
 \* (there the rounding of length() / dot() may legitimately tip the comparison either way)
